@@ -212,11 +212,12 @@ func genConf(c *lib.Ctx, ci int) conf {
 	return cf
 }
 
+// heights: -1 (no height context), 0, a far height, and both sides of every boundary of the configuration.
 func (cf conf) heights() []int64 {
-	set := map[int64]bool{-1: true, 0: true, 1: true, 5000: true}
+	set := map[int64]bool{-1: true, 0: true, 5000: true}
 	add := func(b int64) {
 		if b > 0 {
-			set[b-1], set[b], set[b+1] = true, true, true
+			set[b-1], set[b] = true, true
 		}
 	}
 	for _, m := range []map[string]int64{cf.AddrEnable, cf.CryptoEnable, cf.Forks} {
@@ -322,7 +323,7 @@ func genPool(c *lib.Ctx, ci int) (addrs, pubs, txs []input) {
 func genHistory(r *lib.Rng, cf conf, addrs, pubs, txs []input, withMemo bool) []query {
 	hs := cf.heights()
 	var qs []query
-	n := r.Range(18, 34)
+	n := r.Range(16, 30)
 	type topic struct {
 		in input
 		hs []int64
@@ -343,7 +344,7 @@ func genHistory(r *lib.Rng, cf conf, addrs, pubs, txs []input, withMemo bool) []
 			t.hs = append(t.hs, lib.Pick(r, hs))
 		}
 		if r.Chance(60) { // make sure two heights straddle some boundary, far apart
-			t.hs = append(t.hs, hs[len(hs)-1-r.Intn(2)], hs[1+r.Intn(2)])
+			t.hs = append(t.hs, hs[len(hs)-1-r.Intn(2)], hs[r.Intn(3)])
 		}
 		topics = append(topics, t)
 	}
@@ -451,14 +452,14 @@ func (rn *runner) mismatch(idx int, cf conf, hist []query, pos int, got string, 
 	rn.reports[pre]++
 	k := rn.reports[pre]
 	rn.mu.Unlock()
-	if k > 4 {
+	if k > 2 {
 		rn.c.Count("mismatches_beyond_minimisation_budget", 1)
 		return
 	}
 	wit := map[string]any{"configuration": cf, "query": q, "answer_in_history": got, "answer_of_fresh_process": want, "run": how}
 	// (1) is a fresh process alone deterministic on q?
 	seen := map[string]int{}
-	for i := 0; i < 6; i++ {
+	for i := 0; i < 4; i++ {
 		if out, ok := rn.child(cf, []query{q}, 1); ok {
 			seen[out.Answers[0][0]]++
 		}
@@ -485,8 +486,8 @@ func (rn *runner) mismatch(idx int, cf conf, hist []query, pos int, got string, 
 			cands = append(cands, hist[i])
 		}
 	}
-	if len(cands) > 14 {
-		cands = cands[:14]
+	if len(cands) > 10 {
+		cands = cands[:10]
 	}
 	for _, p := range cands {
 		out, ok := rn.child(cf, []query{p, q}, 1)
@@ -549,10 +550,17 @@ func run(c *lib.Ctx) {
 		"non-trivial history = measured: it asks one input at two heights whose fresh answers differ (a boundary that matters) and the later question was answered after the earlier one in the same process")
 	c.Assume("the node's current block height (crypto context) is the height the question is about", "sm2/secp256r1 signatures are randomised and therefore not part of the generated transactions")
 	nConf := c.N(3, 9)
-	nHist := c.N(12, 110)
+	nHist := c.N(10, 110)
+	// fresh processes per distinct query: address checks (several drivers may reject one input) get more than the rest
 	R := 2
 	if !c.Quick() {
 		R = 3
+	}
+	reps := func(q query) int {
+		if q.Kind == kAddr || q.Kind == kDapp {
+			return R
+		}
+		return R - 1
 	}
 	rn := &runner{c: c, reports: map[string]int{}}
 	idxBase := 0
@@ -588,13 +596,22 @@ func run(c *lib.Ctx) {
 		}
 		c.Extra("configuration_"+cf.Name, cf)
 		// fresh answers
+		type job struct {
+			f *fresh
+			i int
+		}
+		var jobs []job
 		for _, k := range order {
-			distinct[k].answers = make([]string, R)
+			f := distinct[k]
+			f.answers = make([]string, reps(f.q))
+			for i := range f.answers {
+				jobs = append(jobs, job{f, i})
+			}
 		}
 		okAll := true
 		var okMu sync.Mutex
-		lib.Parallel(len(order)*R, 16, func(j int) {
-			f := distinct[order[j/R]]
+		lib.Parallel(len(jobs), 16, func(j int) {
+			f := jobs[j].f
 			out, ok := rn.child(cf, []query{f.q}, 1)
 			if !ok {
 				okMu.Lock()
@@ -602,7 +619,7 @@ func run(c *lib.Ctx) {
 				okMu.Unlock()
 				return
 			}
-			f.answers[j%R] = out.Answers[0][0]
+			f.answers[jobs[j].i] = out.Answers[0][0]
 			c.Count("fresh_process_answers", 1)
 		})
 		if !okAll {
